@@ -133,12 +133,33 @@ def exceptions_in(node):
     return out
 
 
+def bodies_with_helpers(facts, f, depth=0, seen=None):
+    """The body of f and of the private free functions of the crate it calls or hands on as a value
+    (`.map_err(insert_before_exception)`): the error mapping of a mutator may be factored out into one of those."""
+    seen = seen if seen is not None else {f["id"]}
+    out = [f["body"]]
+    if depth >= 2:
+        return out
+    for n in walk(f["body"]):
+        if n.get("k") != "Path":
+            continue
+        g = facts.fns.get(n.get("rid") or n.get("id"))
+        if g is None or g["id"] in seen or "body" not in g or g["crate"] != f["crate"] or g["kind"] != "Fn":
+            continue
+        if not str(g.get("vis", "")).startswith("Restricted") or g["path"] in dom1.EXC or g.get("impl_self"):
+            continue
+        seen.add(g["id"])
+        out += bodies_with_helpers(facts, g, depth + 1, seen)
+    return out
+
+
 def r13_3(facts, res):
     st = res.rule("R13-3", instances=0, arms=0)
     for path, want in sorted(dom1.EXC.items()):
         f = facts.fn(path)
         st["instances"] += 1
-        have = set(exceptions_in(f["body"]))
+        bodies = bodies_with_helpers(facts, f)
+        have = set(x for b in bodies for x in exceptions_in(b))
         if isinstance(want, tuple):
             ok = want[0] <= have <= want[1]
             want = want[1]
@@ -149,7 +170,7 @@ def r13_3(facts, res):
             res.add(Finding("R13-3", path, "%s raises %s, DOM Level 1 table says %s" % (path, sorted(have), sorted(want)),
                             f["file"], f["line"], {"have": sorted(have), "want": sorted(want)}))
         # arm constraints
-        for n in walk(f["body"]):
+        for n in (m for b in bodies for m in walk(b)):
             if n.get("k") == "Match":
                 for arm in n["arms"]:
                     pat_paths = [str(p.get("path", "")) for p in walk(arm["pat"]) if "path" in p]
